@@ -269,6 +269,14 @@ def rule_reparent(ctx) -> RuleResult:
     res.inst("parent setter: tests `current_parent is not None and current_parent != self._parent`", ok=ok)
     if not ok:
         res.find("Entity", "parent", "no test for an actual change of parent", st.where, "the old parent is never (or always) unlinked")
+    allowed = {"current_parent is not None", "current_parent != self._parent", "hasattr(current_parent, 'remove_children')", "current_parent is not self._parent"}
+    for t in tests:
+        conj = {unparse(v) for v in t.ast.values} if isinstance(t.ast, ast.BoolOp) and isinstance(t.ast.op, ast.And) else {unparse(t.ast)}
+        extra = sorted(conj - allowed)
+        res.inst(f"parent setter: the unlink of the old parent is conditioned only on an actual change of parent (extra conditions: {extra})", nontrivial=True, ok=not extra)
+        if extra:
+            res.find("Entity", "parent", f"unlink from the old parent additionally requires {extra}", st.where,
+                     "the in-memory move always happens, but for some entities the old parent's link stays on file: after close the node sits under both parents")
     for t in tests:
         starts = [m for m, l in t.succ if l == "true"]
         r1 = reach(g, starts, avoid=unlink)
@@ -324,6 +332,14 @@ def rule_pgmember(ctx) -> RuleResult:
             if not checked:
                 res.find("PropertyGroup", fn.prop or fn.name, "stores _properties without a membership test against parent.children", f"{fn.module.relpath}:{a.lineno}",
                          "a uid that is not a child of the group's object can be listed in 'Properties' and is written to the file")
+    rp = PG.methods.get("remove_properties")
+    conv = [i for i in ast.walk(rp.node) if isinstance(i, ast.If) and any(isinstance(a, ast.Assign) and unparse(a.value).endswith(".uid") for a in i.body)]
+    ok = bool(conv) and all(unparse(i.test) == f"isinstance({unparse(i.body[0].targets[0])}, Data)" for i in conv)
+    res.inst(f"PropertyGroup.remove_properties converts every Data element to its uid ({[unparse(i.test) for i in conv]})", nontrivial=True, ok=ok)
+    if not ok:
+        res.find("PropertyGroup", "remove_properties", f"Data elements are converted to uids only under {[unparse(i.test) for i in conv]}", rp.where,
+                 "some data are compared as objects against the uid list and never stripped: a group keeps listing data that left its object "
+                 "(re-parented or removed)")
     return res
 
 
